@@ -285,7 +285,7 @@ def run_impl(component, ops_text, variant="asan", timeout=600, stateless=False, 
     out = []
     pos = 0
     env = dict(os.environ)
-    env["ASAN_OPTIONS"] = "detect_leaks=0:abort_on_error=0:allocator_may_return_null=1:max_allocation_size_mb=2048"
+    env["ASAN_OPTIONS"] = "detect_leaks=0:abort_on_error=0:allocator_may_return_null=1:max_allocation_size_mb=2048:quarantine_size_mb=8"
     env["UBSAN_OPTIONS"] = "print_stacktrace=0"
     restarts = 0
     while pos < len(ops):
